@@ -2,6 +2,7 @@
 FILT = "hippolyzer/lib/proxy/message_filter.py"
 LOGR = "hippolyzer/lib/proxy/message_logger.py"
 MSG = "hippolyzer/lib/base/message/message.py"
+DTYPES = "hippolyzer/lib/base/datatypes.py"
 
 _TRY_OLD = '''        try:
             if not operator:
@@ -339,6 +340,71 @@ VARIANTS = [
     {"name": "P R6 from_dict creates the list by item assignment", "file": MSG, "expect": "silent",
      "old": "            msg.create_block_list(block_type)\n            for block in blocks:",
      "new": "            msg.blocks[block_type] = []\n            for block in blocks:"},
+    # ---- round 3 mechanisms
+    {"name": "R4 TupleCoord.__lt__ raises ValueError on a length mismatch", "file": DTYPES, "expect": "C18.R4",
+     "old": "    def __lt__(self, other):\n        return all(x < y for x, y in zip(self, other))",
+     "new": "    def __lt__(self, other):\n        if len(tuple(other)) != len(tuple(self)):\n"
+            "            raise ValueError('length mismatch')\n        return all(x < y for x, y in zip(self, other))"},
+    {"name": "P R4 strict zip in TupleCoord with ValueError added to the filter's handler", "expect": "silent", "edits": [
+        {"file": DTYPES, "old": "        return all(x >= y for x, y in zip(self, other))",
+         "new": "        return all(x >= y for x, y in zip(self, other, strict=True))"},
+        {"file": LOGR, "old": "        except (TypeError, AttributeError):\n            # The comparison",
+         "new": "        except (TypeError, AttributeError, ValueError):\n            # The comparison"}]},
+    {"name": "R2 flat expression chain folded with the operator at a fixed position", "expect": "C18.R2", "edits": [
+        {"file": FILT, "old": 'return term, ZeroOrMore(["||", "&&"], expression)', "new": 'return term, ZeroOrMore(["||", "&&"], term)'},
+        {"file": FILT, "old": "            if children[1] == \"&&\":\n                return AndFilterNode(children[0], children[2])\n"
+                              "            elif children[1] == \"||\":\n                return OrFilterNode(children[0], children[2])\n",
+         "new": "            if children[1] == \"&&\":\n                return functools.reduce(AndFilterNode, children[::2])\n"
+                "            elif children[1] == \"||\":\n                return functools.reduce(OrFilterNode, children[::2])\n"}]},
+    {"name": "P R2 flat expression chain folded operator by operator", "expect": "silent", "edits": [
+        {"file": FILT, "old": 'return term, ZeroOrMore(["||", "&&"], expression)', "new": 'return term, ZeroOrMore(["||", "&&"], term)'},
+        {"file": FILT, "old": "            if children[1] == \"&&\":\n                return AndFilterNode(children[0], children[2])\n"
+                              "            elif children[1] == \"||\":\n                return OrFilterNode(children[0], children[2])\n"
+                              "            else:\n                raise ValueError(f\"Unrecognized operator {children[1]}\")\n",
+         "new": "            node = children[-1]\n            for idx in range(len(children) - 2, 0, -2):\n"
+                "                if children[idx] == \"&&\":\n                    node = AndFilterNode(children[idx - 1], node)\n"
+                "                elif children[idx] == \"||\":\n                    node = OrFilterNode(children[idx - 1], node)\n"
+                "                else:\n                    raise ValueError(f\"Unrecognized operator {children[idx]}\")\n"
+                "            return node\n"}]},
+    {"name": "P R2 visitor picks the class into a local first", "file": FILT, "expect": "silent",
+     "old": "            if children[1] == \"&&\":\n                return AndFilterNode(children[0], children[2])\n"
+            "            elif children[1] == \"||\":\n                return OrFilterNode(children[0], children[2])\n"
+            "            else:\n                raise ValueError(f\"Unrecognized operator {children[1]}\")\n",
+     "new": "            if children[1] == \"&&\":\n                node_cls = AndFilterNode\n"
+            "            elif children[1] == \"||\":\n                node_cls = OrFilterNode\n"
+            "            else:\n                raise ValueError(f\"Unrecognized operator {children[1]}\")\n"
+            "            return node_cls(children[0], children[2])\n"},
+    {"name": "R2 visitor's class-valued local crossed", "file": FILT, "expect": "C18.R2",
+     "old": "            if children[1] == \"&&\":\n                return AndFilterNode(children[0], children[2])\n"
+            "            elif children[1] == \"||\":\n                return OrFilterNode(children[0], children[2])\n"
+            "            else:\n                raise ValueError(f\"Unrecognized operator {children[1]}\")\n",
+     "new": "            if children[1] == \"&&\":\n                node_cls = OrFilterNode\n"
+            "            elif children[1] == \"||\":\n                node_cls = AndFilterNode\n"
+            "            else:\n                raise ValueError(f\"Unrecognized operator {children[1]}\")\n"
+            "            return node_cls(children[0], children[2])\n"},
+    {"name": "R3 Or split into helpers, full evaluation helper forgets the right operand", "file": FILT, "expect": "C18.R3",
+     "old": "        if left_match or right_match:\n            # Fine since fields should be empty when result=False\n"
+            "            return MatchResult(True, left_match.fields + right_match.fields)\n        return MatchResult(False, [])",
+     "new": "        return self._merge(left_match, left_match)\n\n    def _merge(self, first, second):\n"
+            "        if first or second:\n            return MatchResult(True, first.fields + second.fields)\n        return MatchResult(False, [])"},
+    {"name": "P R3 Or tail extracted into a helper method", "file": FILT, "expect": "silent",
+     "old": "        if left_match or right_match:\n            # Fine since fields should be empty when result=False\n"
+            "            return MatchResult(True, left_match.fields + right_match.fields)\n        return MatchResult(False, [])",
+     "new": "        return self._merge(left_match, right_match)\n\n    def _merge(self, first, second):\n"
+            "        if first or second:\n            return MatchResult(True, first.fields + second.fields)\n        return MatchResult(False, [])"},
+    {"name": "R5 view-append helper also called from a non-owner", "expect": "C18.R5", "edits": [
+        {"file": LOGR, "old": "                next_idx = len(self._filtered_entries)\n                self._begin_insert(next_idx)\n"
+                              "                self._filtered_entries.append(entry)\n                self._end_insert()\n",
+         "new": "                self._show(entry)\n"},
+        {"file": LOGR, "old": "    def set_paused(self, paused: bool):\n        self.paused = paused\n",
+         "new": "    def set_paused(self, paused: bool):\n        self.paused = paused\n        self._show(None)\n\n"
+                "    def _show(self, entry):\n        next_idx = len(self._filtered_entries)\n        self._begin_insert(next_idx)\n"
+                "        self._filtered_entries.append(entry)\n        self._end_insert()\n"}]},
+    {"name": "R5 extracted filter predicate ignores the filter", "expect": "C18.R5", "edits": [
+        {"file": LOGR, "old": "            if self.filter.match(entry):\n                next_idx", "new": "            if self._visible(entry):\n                next_idx"},
+        {"file": LOGR, "old": "    def set_paused(self, paused: bool):\n        self.paused = paused\n",
+         "new": "    def set_paused(self, paused: bool):\n        self.paused = paused\n\n"
+                "    def _visible(self, entry):\n        return entry is not None\n"}]},
     # ---- documented limits
     {"name": "X bare selector matches on the raw value instead of truthiness", "file": LOGR, "expect": "miss",
      "old": "                return bool(val)\n", "new": "                return val is not None\n"},
